@@ -168,8 +168,9 @@ type FuncContract struct {
 // EncapDecl: `encapsulated T.f, T.g by F1, F2`: the listed fields are read and written only inside
 // the listed functions (checked over the whole package on every run).
 type EncapDecl struct {
-	Fields []string
-	Owners []string
+	Fields     []string
+	Owners     []string
+	WritesOnly bool // `ownedwrites`: other functions may read the fields, only the owners write them
 }
 
 // GlobalFact: `globalfact pkg.Var pred`: the ghost predicate holds of the value of that
@@ -336,7 +337,7 @@ var clauseKeywords = map[string]bool{
 	"requires": true, "ensures": true, "establishes": true, "modifies": true, "loop": true, "at": true,
 	"property": true, "nopanic": true, "reveal": true, "pure": true, "func": true,
 	"ghost": true, "lemma": true, "axiom": true, "extern": true, "fresh": true,
-	"maypanic": true, "regex": true, "globalfact": true, "constmap": true, "noblock": true, "objinvariant": true, "entryfact": true, "encapsulated": true, "inline": true, "boundary": true, "immutable": true, "bounded": true, "opaque": true, "pathflag": true,
+	"maypanic": true, "regex": true, "globalfact": true, "constmap": true, "noblock": true, "objinvariant": true, "entryfact": true, "encapsulated": true, "ownedwrites": true, "inline": true, "boundary": true, "immutable": true, "bounded": true, "opaque": true, "pathflag": true,
 }
 
 func (p *parser) parseExpr(minPrec int) (Expr, error) {
@@ -796,9 +797,9 @@ func (p *parser) parseFile() (*SpecFile, error) {
 			}
 			vn := p.next().s
 			sf.GFacts = append(sf.GFacts, &GlobalFact{Var: pk + "." + vn, Pred: p.next().s})
-		case "encapsulated":
+		case "encapsulated", "ownedwrites":
 			p.next()
-			ed := &EncapDecl{}
+			ed := &EncapDecl{WritesOnly: t.s == "ownedwrites"}
 			for {
 				tn := p.next().s
 				if err := p.expectOp("."); err != nil {
